@@ -38,7 +38,7 @@ func (Prop) Rule() string {
 		"edge ephemeral blocks {0,1,n-2,n-1,n,n+1,2^256-1,mid and ^0x42 images} for lengths 1,32,33. Converters: every transition of {AdjustCiphertextSplicingOrder, PlainCiphertext2ASN1, ASN1Ciphertext2Plain(7 option values)} from each of the 5 layouts must give exactly the reference encoding of the target layout, plus all literal chains of length <= 3 for 4 lengths; enveloped key marshal/parse for 12 key pairs. " +
 		"Constructive all-zero C2: M := KDF([k]P) for k=1..K and lengths 1,2,3,4,32,33, and fixed 1-byte (thorough: 2-byte) messages with k searched upward until the mask equals M; ciphertext built by the reference in all layouts, library Decrypt must return M; library Encrypt with that k must produce it. " +
 		"Constructive all-zero mask t (k searched until KDF=00..): such a string is not an output of the algorithm and B4 rejects it; library must reject. " +
-		"Rejection (E3): seeds 3 keys x 4 lengths x 5 layouts: every byte x {^01,^80} (thorough: 9-value substitution set + DER-aware edits of the ASN.1 form), every truncation, extensions; structured C1 (off-curve, infinity encodings, x+p, negative, negated point, non-residue x, hybrid forms), wrong key. " +
+		"Rejection (E3): seeds (quick 3 keys x 4 lengths, thorough 12 keys x 7 lengths) x 5 layouts: every byte x {^01,^80} (thorough: 9-value substitution set + DER-aware edits of the ASN.1 form, all 255 values on the C1 region of 10 seeds, all 2-deviation mutants of one short ciphertext per layout), every truncation, extensions; structured C1 (off-curve, infinity encodings, x+p, negative, negated point, non-residue x, hybrid forms), wrong key. " +
 		"Oracle in both directions: library returns M' <=> strict layout parse + reference decryption (B1-B6) returns M'; hybrid C1 and empty C2 are left open (error or M'). Legacy math/big path (NIST P-256, bare and generic-methods-only curve object): reduced round trip, all-zero C2, rejection. " +
 		"distinct_nontrivial counts (key,length,option/layout), constructive (key,length,k) and (seed,mutation class,verdict) classes."
 }
@@ -49,7 +49,7 @@ func (Prop) Assumptions() []string {
 		"the ephemeral scalar is the first 32-byte block of the reader in [1,n-1] whose mask t is not all zero (read from sm2_pke.go encryptSM2EC/randomPoint); byte-for-byte comparison of ciphertexts relies on this",
 		"supported C1 forms are uncompressed and compressed (property statement); a hybrid 06/07 prefix and an empty C2 are left open: error or the reference plaintext",
 		"the splicing order handed to Decrypt / the converters is the true one; decrypting with the wrong declared order is misuse and not enumerated",
-		"quick tier: all-zero-C2 with k=1..16 and 1-byte searched messages, rejection with the {^01,^80} set; thorough: k=1..64, 2-byte searched messages (~65 536 trials each), 9-value substitution set and DER-aware edits",
+		"quick tier: all-zero-C2 with k=1..16 and 1-byte searched messages, rejection seeds 3 keys x 4 lengths with the {^01,^80} set; thorough: k=1..64, 2-byte searched messages (~65 536 trials each), rejection seeds 12 keys x 7 lengths with the 9-value substitution set and DER-aware edits, all 255 values on the first 72 bytes of 10 seeds, all 2-deviation mutants of the 5 layouts of one 1-byte-message ciphertext (66..107 bytes)",
 		"dispatch tiers: c-default, c-noavx2, c-nobmi2, c-purego; arm64/ppc64le/s390x assembly is not covered",
 		"RNG failure answers belong to C12; hostile ASN.1 beyond single edits belongs to C13",
 	}
@@ -739,15 +739,75 @@ func (rc *rejCtx) mutants(seed []byte, thorough bool) {
 	}
 }
 
-var rejectKeys = []int{0, 2, 5}
-var rejectLens = []int{1, 16, 33, 100}
+func rejectKeys(quick bool) []int {
+	if quick {
+		return []int{0, 2, 5}
+	}
+	return []int{0, 1, 2, 3, 4, 5, 6, 7, 8, 9, 10, 11}
+}
 
-func rejectCase(t *engine.T, ki, ml int, l layout) {
+func rejectLens(quick bool) []int {
+	if quick {
+		return []int{1, 16, 33, 100}
+	}
+	return []int{1, 2, 16, 32, 33, 100, 255}
+}
+
+// rejectSeed builds the seed ciphertext of a rejection case.
+func rejectSeed(t *engine.T, ki, ml int, l layout) (*kctx, []byte, bool) {
 	kc := newKctx(ki)
 	msg := c06.Pattern(ml, 0x21)
 	ref, _ := kc.refEncryptStream([][]byte{ecref.Bytes32(scalarFor(fmt.Sprintf("verif/c07/rej/%d", ki), ml))}, msg)
 	seed := l.encode(ref)
-	if !mustDecrypt(t, "decrypt/reference-ciphertext-refused", kc.priv, l, seed, msg, "rejection seed") {
+	return kc, seed, mustDecrypt(t, "decrypt/reference-ciphertext-refused", kc.priv, l, seed, msg, "rejection seed")
+}
+
+// rejectAll255Case: every byte of the C1 region x all 255 other values (thorough).
+func rejectAll255Case(t *engine.T, ki, ml int, l layout, from, to int) {
+	kc, seed, ok := rejectSeed(t, ki, ml, l)
+	if !ok {
+		return
+	}
+	rc := &rejCtx{t: t, kc: kc, l: l, entries: decEntries(l), priv: kc.priv, dc: kc.dc}
+	buf := make([]byte, len(seed))
+	for i := from; i < to && i < len(seed); i++ {
+		copy(buf, seed)
+		for v := 0; v < 256; v++ {
+			if byte(v) == seed[i] {
+				continue
+			}
+			buf[i] = byte(v)
+			rc.check("sub255", fmt.Sprintf("byte %d = %02x", i, v), buf)
+		}
+	}
+	t.Extra("reference_generic_scalar_mults", kc.dc.muls)
+}
+
+// rejectPairsCase: all 2-deviation mutants (9-value substitution set) with the first position in [from,to) (thorough).
+func rejectPairsCase(t *engine.T, ki, ml int, l layout, from, to int) {
+	kc, seed, ok := rejectSeed(t, ki, ml, l)
+	if !ok {
+		return
+	}
+	rc := &rejCtx{t: t, kc: kc, l: l, entries: decEntries(l)[:1], priv: kc.priv, dc: kc.dc}
+	buf := make([]byte, len(seed))
+	for a := from; a < to && a < len(seed); a++ {
+		for _, va := range engine.SmallSubs(seed[a]) {
+			for b := a + 1; b < len(seed); b++ {
+				for _, vb := range engine.SmallSubs(seed[b]) {
+					copy(buf, seed)
+					buf[a], buf[b] = va, vb
+					rc.check("sub2", fmt.Sprintf("byte %d = %02x, byte %d = %02x", a, va, b, vb), buf)
+				}
+			}
+		}
+	}
+	t.Extra("reference_generic_scalar_mults", kc.dc.muls)
+}
+
+func rejectCase(t *engine.T, ki, ml int, l layout) {
+	kc, seed, ok := rejectSeed(t, ki, ml, l)
+	if !ok {
 		return
 	}
 	rc := &rejCtx{t: t, kc: kc, l: l, entries: decEntries(l), priv: kc.priv, dc: kc.dc, convs: true}
@@ -884,7 +944,7 @@ func (Prop) Run(c *engine.Ctx) {
 			searchedZeroC2Case(t, ki, [][]byte{{0x01}, {'A'}, {0x80}, {0xff}}, 8192)
 		})
 		c.Case(fmt.Sprintf("zero-t/searched-1-byte/key=%d", ki), func(t *engine.T) { zeroMaskCase(t, ki, 1, 8192) })
-		if !c.Quick() && ki%4 == 0 {
+		if !c.Quick() {
 			c.Case(fmt.Sprintf("zero-c2/searched-2-byte/key=%d", ki), func(t *engine.T) {
 				searchedZeroC2Case(t, ki, [][]byte{[]byte("OK"), {0x00, 0x01}}, 2000000)
 			})
@@ -892,9 +952,9 @@ func (Prop) Run(c *engine.Ctx) {
 		}
 		c.Case(fmt.Sprintf("enveloped/key=%d", ki), func(t *engine.T) { envelopedCase(t, ki) })
 	}
-	for _, ki := range rejectKeys {
+	for _, ki := range rejectKeys(c.Quick()) {
 		ki := ki
-		for _, ml := range rejectLens {
+		for _, ml := range rejectLens(c.Quick()) {
 			ml := ml
 			for _, l := range layouts {
 				l := l
@@ -902,6 +962,22 @@ func (Prop) Run(c *engine.Ctx) {
 			}
 		}
 		c.Case(fmt.Sprintf("reject/key=%d/structured", ki), func(t *engine.T) { structuredC1Case(t, ki) })
+	}
+	if !c.Quick() {
+		for _, l := range layouts {
+			l := l
+			for _, ki := range []int{0, 5} {
+				ki := ki
+				for from := 0; from < 72; from += 8 {
+					from := from
+					c.Case(fmt.Sprintf("reject-all255/key=%d/len=16/%s/bytes=%d..%d", ki, l, from, from+7), func(t *engine.T) { rejectAll255Case(t, ki, 16, l, from, from+8) })
+				}
+			}
+			for from := 0; from < 112; from += 4 {
+				from := from
+				c.Case(fmt.Sprintf("reject-pairs/key=5/len=1/%s/first=%d..%d", l, from, from+3), func(t *engine.T) { rejectPairsCase(t, 5, 1, l, from, from+4) })
+			}
+		}
 	}
 	runLegacy(c)
 }
